@@ -77,6 +77,7 @@ class Ctx:
         self.current_rule: str = ""
         self.stats: Dict[str, int] = {"functions": 0, "paths": 0, "worlds": 0, "call_sites": 0}
         self._funcs_seen: Set[str] = set()
+        self._dedupe: Dict[Tuple, Instance] = {}
 
     # ---------------------------------------------------------------- evaluation
     def func(self, qualname: str) -> FuncInfo:
@@ -101,7 +102,13 @@ class Ctx:
     def _add(self, verdict: str, f: Optional[FuncInfo], node: Optional[ast.AST], construct: str,
              expected: str = "", found: str = "", **detail: Any) -> Instance:
         site = qual_site(f, node) if f is not None else {"file": "", "function": ""}
+        if f is None and node is not None and hasattr(node, "lineno"):
+            site["line"] = node.lineno
         inst = Instance(self.current_rule, verdict, site, construct, expected, found, detail)
+        dk = (self.current_rule, verdict, site.get("function"), site.get("line"), construct, found if verdict != HOLDS else "")
+        if dk in self._dedupe:
+            return self._dedupe[dk]
+        self._dedupe[dk] = inst
         self.instances.append(inst)
         return inst
 
